@@ -97,8 +97,33 @@ def formula_eval(case, blank='absent', origin=(3, 2), split=False):
         return xl.to_abs(e), None, text
 
 
+K_SCALE = 2 ** 32
+
+
+def scaled(case):
+    """every addressed number times 2^32 (whole numbers stay whole numbers: their products leave the 64-bit integers)"""
+    def sv(x):
+        return dict(x, n=x['n'] * K_SCALE) if x['t'] == 'num' else x
+    return dict(case, args=[dict(a, v=[[sv(x) for x in row] for row in a['v']]) if a['t'] == 'arr' else sv(a) for a in case['args']])
+
+
+def scalable(case, exp):
+    if exp['t'] != 'num' or case['f'] not in ('SUM', 'SUMPRODUCT', 'MAX', 'MIN', 'AVERAGE'):
+        return False
+    if case['f'] == 'SUMPRODUCT' and any(a['t'] != 'arr' for a in case['args']):
+        return False
+    return all(x['t'] != 'num' or x['d'] == 1 for x in _cells(case)) and any(x['t'] == 'num' for x in _cells(case))
+
+
+def scaled_expectation(case, exp):
+    deg = len(case['args']) if case['f'] == 'SUMPRODUCT' else 1
+    return Fraction(exp['n'], exp['d']) * K_SCALE ** deg
+
+
 def observe(case, path):
     """-> (observed, stored or None, formula text or None)"""
+    if path.endswith('-scaled'):
+        return observe(scaled(case), path[:-7])
     if path == 'direct':
         return calls.direct_call(case['f'], case['args'], 'native'), None, None
     if path == 'wrapped':
@@ -166,10 +191,21 @@ def replayer(blocks):
         if exp['t'] == 'open':
             out['open'] += 1
             continue
-        for path in paths_for(case):
+        plist = paths_for(case)
+        if scalable(case, exp):
+            plist = plist + ['direct-scaled'] + ([] if DIRECT_ONLY else ['formula-scaled'])
+        for path in plist:
             obs, stored, text = observe(case, path)
             out['calls'] += 1
             out['bypath'][path] = out['bypath'].get(path, 0) + 1
+            if path.endswith('-scaled'):
+                from harness.agree import _as_num, num_close
+                want = scaled_expectation(case, exp)
+                on = _as_num(obs) if obs['t'] in ('num', 'float') else None
+                if on is None or not num_close(on, want, 1e-9):
+                    out['dis'].append({'case': dict(case, every_number_times=K_SCALE), 'exp': {'t': 'float', 'v': repr(float(want))}, 'obs': obs, 'path': path,
+                                       'formula': text, 'features': features(case, exp, obs, path)})
+                continue
             ok = agrees(obs, exp, 1e-9)
             if len(out['samples']) < 2 and path == 'formula' and len(case['args']) > 1:
                 out['samples'].append({'case': case, 'expected': exp, 'observed': obs, 'path': path, 'formula': text})
